@@ -88,6 +88,26 @@ std::vector<Base> make_bases(Ctx &cx, bool all) {
     b.F = e.out;
     out.push_back(b);
   }
+  // always present: keys with special shapes (zero bytes at various positions, the project's own test key)
+  for (int ks = 0; ks < 5; ks++) {
+    vh::Rng r(vh::mix(cx.seed, 0x4E750 + ks));
+    Base b;
+    b.ep.cmode = (int)((cx.seed + ks) % 5); b.ep.hmode = ks % 3; b.ep.T = Ts[ks % 3];
+    r.fill(b.ep.key, 16);
+    if (ks == 0) for (int i = 0; i < 16; i++) b.ep.key[i] = (uint8_t)(i * 0x11);
+    if (ks == 1) b.ep.key[5] = 0;
+    if (ks == 2) b.ep.key[14] = 0;
+    if (ks == 3) memset(b.ep.key, 0, 16);
+    if (ks == 4) { b.ep.key[0] = 0; b.ep.key[15] = 0; }
+    b.ep.seed = ops::gen_seed(r);
+    b.n = 40 + (size_t)r.below(60);
+    b.pseed = r.next();
+    b.P = ops::gen_plain(b.n, b.pseed);
+    ops::Result e = ops::encrypt(b.P, b.ep);
+    if (!e.ret) { fprintf(stderr, "harness: could not create a genuine file\n"); exit(2); }
+    b.F = e.out;
+    out.push_back(b);
+  }
   return out;
 }
 
